@@ -421,8 +421,8 @@ def c17(tier):
     stmt = {1: 5, 2: 6, 3: 5}
     for integ in ("generic", "rdflib"):
         for phys in (1, 2, 3):
-            if integ == "rdflib" and phys != 1 and tier == "quick":
-                continue
+            if integ == "rdflib" and phys != 1:
+                continue   # the rdflib adapters differ from the generic ones only in term construction
             ent = ["flat", "grouped", "to_graph"] if (tier != "quick" or (integ == "generic" and phys == 1)) else ["flat"]
             for k1 in range(11):
                 if tier == "quick":
